@@ -31,16 +31,18 @@ CONSTANTS Paths,        \* set of raw component lists, e.g. <<"", "a">> for "/a"
           Bugs,         \* defect shapes in the model, subset of {"S6a", "S6b", "S7a", "S7b", "RM", "XU"} (section "known")
           Known,        \* known-finding predicates in force (subset of the same ids)
           WithPersist,  \* BOOLEAN: save/restore steps enabled (C19)
+          RefuseBeforeInit, \* BOOLEAN: backends that refuse init() are also mounted before INIT (then INIT fails)
           KeepHist,     \* BOOLEAN: record the history (scenario export / counterexamples)
           Wrap,         \* modulus of next_super (= N, or 256 with filler mounts at N..255, see Alloc)
           LoopAlloc,    \* BOOLEAN: evaluate allocate_fs_idx as the loop of the source (else its closed form)
           NextSuper0, NextIno0
 VARIABLES sb, mnt, smap, nexts, cmap, omap, ipn, inext, iinit, inempty,
+          refuse,     \* [idx -> the backend in the slot fails its init()]  (a property of the mounted backend)
           aok,        \* the last result was allowed by A
           dirty,      \* [idx -> a mapping was left in the slot by an over-mount / failed mount]   (history)
           restored,   \* a save/restore happened                                                 (history)
           hist, nops
-ivars == <<sb, mnt, smap, nexts, cmap, omap, ipn, inext, iinit, inempty>>
+ivars == <<sb, mnt, smap, nexts, cmap, omap, ipn, inext, iinit, inempty, refuse>>
 vars == <<avars, ivars, aok, dirty, restored, hist, nops>>
 View == <<avars, ivars, aok, dirty, restored, nops>>
 
@@ -101,13 +103,20 @@ Log(step) == /\ hist' = IF KeepHist THEN Append(hist, step @@ [obs |-> ObsSeq'])
              /\ nops' = nops + 1
 
 \* mount_with_id_mapping (fs.mount() succeeded, max inode fits)
-IMount(p, b, m) ==
+\* rf = the backend's init() fails. Once negotiated, fs.init(out_opts) is the first thing done under the lock:
+\* the mount is refused before an index is allocated, nothing changes
+IMount(p, b, m, rf) ==
+  IF iinit /\ rf
+  THEN /\ aok' = AMountFailPre(TRUE, FALSE)
+       /\ UNCHANGED <<avars, ivars, dirty, restored>>
+       /\ Log([op |-> "mount", path |-> PathStr(p), b |-> b, m |-> MapRec(m), idx |-> -1, init_fail |-> TRUE])
+  ELSE
   \E a \in {Alloc} :
   IF a.idx = N
   THEN \* "vfs maximum mountpoints reached"; next_super has moved on
        /\ nexts' = a.next /\ aok' = AMountFailPre(TRUE, TRUE)
-       /\ UNCHANGED <<avars, sb, mnt, smap, cmap, omap, ipn, inext, iinit, inempty, dirty, restored>>
-       /\ Log([op |-> "mount", path |-> PathStr(p), b |-> b, m |-> MapRec(m), idx |-> -1])
+       /\ UNCHANGED <<avars, sb, mnt, smap, cmap, omap, ipn, inext, iinit, inempty, refuse, dirty, restored>>
+       /\ Log([op |-> "mount", path |-> PathStr(p), b |-> b, m |-> MapRec(m), idx |-> -1, init_fail |-> rf])
   ELSE \E idx \in {a.idx} :
        \E sm1 \in {IF Given(m) \/ "S6b" \notin Bugs THEN [smap EXCEPT ![idx] = m] ELSE smap} :   \* stored only for Some
           IF p = BadPath
@@ -115,8 +124,8 @@ IMount(p, b, m) ==
                /\ nexts' = a.next /\ aok' = AMountFailPre(FALSE, TRUE)
                /\ smap' = IF "S6b" \in Bugs THEN sm1 ELSE [smap EXCEPT ![idx] = NoMap]     \* (patched: cleared again)
                /\ dirty' = [dirty EXCEPT ![idx] = @ \/ Given(m)]
-               /\ UNCHANGED <<avars, sb, mnt, cmap, omap, ipn, inext, iinit, inempty, restored>>
-               /\ Log([op |-> "mount", path |-> PathStr(p), b |-> b, m |-> MapRec(m), idx |-> -1])
+               /\ UNCHANGED <<avars, sb, mnt, cmap, omap, ipn, inext, iinit, inempty, refuse, restored>>
+               /\ Log([op |-> "mount", path |-> PathStr(p), b |-> b, m |-> MapRec(m), idx |-> -1, init_fail |-> rf])
           ELSE \E r \in {MkT(ipn, inext, RootNode, p)} :
                \E node \in {r.node} :
                \E ruid \in {Out(EffW(sm1, cmap, idx), RootUid)} :               \* convert_entry at mount time
@@ -133,8 +142,9 @@ IMount(p, b, m) ==
                                  IF i = idx THEN (dirty[i] /\ ~Given(m))                  \* a given mapping overwrites
                                  ELSE IF over /\ i = oldi THEN (Given(given[i]) \/ dirty[i])   \* left behind by the over-mount
                                  ELSE dirty[i]]
+                  /\ refuse' = [i \in 0..N-1 |-> IF i = idx THEN rf ELSE IF over /\ i = oldi THEN FALSE ELSE refuse[i]]
                   /\ UNCHANGED <<cmap, omap, iinit, inempty, restored>>
-                  /\ Log([op |-> "mount", path |-> PathStr(p), b |-> b, m |-> MapRec(m), idx |-> idx])
+                  /\ Log([op |-> "mount", path |-> PathStr(p), b |-> b, m |-> MapRec(m), idx |-> idx, init_fail |-> rf])
 
 \* umount
 IUmount(p) ==
@@ -150,6 +160,7 @@ IUmount(p) ==
        /\ dirty' = [dirty EXCEPT ![idx] = FALSE]
        /\ aok' = AUmountPre(TRUE, p)
        /\ AUmountEff(p, FALSE)
+       /\ refuse' = [refuse EXCEPT ![idx] = FALSE]
        /\ UNCHANGED <<nexts, cmap, omap, ipn, inext, iinit, inempty, restored>>
        /\ Log([op |-> "umount", path |-> PathStr(p), ok |-> TRUE])
 
@@ -164,6 +175,7 @@ IRemount(p, b) ==
      /\ mnt' = [mnt EXCEPT ![node] = [idx |-> idx, root |-> RootLow, ruid |-> Out(IEff(idx), RootUid)]]
      /\ aok' = ARemountPre(TRUE, p, idx)
      /\ ARemountEff(b, RootRec, idx)
+  /\ refuse' = [refuse EXCEPT ![mnt[WalkT(ipn, RootNode, p)].idx] = FALSE]          \* the re-attached instance does not refuse
   /\ UNCHANGED <<smap, nexts, cmap, omap, ipn, inext, iinit, inempty, dirty, restored>>
   /\ Log([op |-> "remount", path |-> PathStr(p), b |-> b, ok |-> TRUE])
 
@@ -174,12 +186,20 @@ IInit(empty) ==
   IF iinit
   THEN /\ aok' = ~AInitPre
        /\ UNCHANGED <<avars, ivars, dirty, restored>>
-       /\ Log([op |-> "init", empty |-> empty, ok |-> FALSE])
+       /\ Log([op |-> "init", empty |-> empty, ok |-> FALSE, refused |-> FALSE])
+  ELSE IF \E i \in 1..N-1 : sb[i] # Vacant /\ refuse[i]
+  THEN \* the options are stored (in_opts too), then the loop over the superblocks stops at the refusing backend:
+       \* Err, `initialized` stays false
+       /\ inempty' = empty
+       /\ aok' = TRUE
+       /\ IF AInitPre THEN AInitRefusedEff(~empty, ~empty) ELSE UNCHANGED avars
+       /\ UNCHANGED <<sb, mnt, smap, nexts, cmap, omap, ipn, inext, iinit, refuse, dirty, restored>>
+       /\ Log([op |-> "init", empty |-> empty, ok |-> FALSE, refused |-> TRUE])
   ELSE /\ iinit' = TRUE /\ inempty' = empty
        /\ aok' = (AInitPre \/ KnownS7bHit)
        /\ IF AInitPre THEN AInitEff("negotiated", ~empty, ~empty) ELSE UNCHANGED avars
-       /\ UNCHANGED <<sb, mnt, smap, nexts, cmap, omap, ipn, inext, dirty, restored>>
-       /\ Log([op |-> "init", empty |-> empty, ok |-> TRUE])
+       /\ UNCHANGED <<sb, mnt, smap, nexts, cmap, omap, ipn, inext, refuse, dirty, restored>>
+       /\ Log([op |-> "init", empty |-> empty, ok |-> TRUE, refused |-> FALSE])
 
 \* save_to_bytes; Vfs::new(VfsOptions::default()); restore_from_bytes; restore_mount for every mount
 RCmap == IF "S7a" \in Bugs THEN NoMap ELSE Canon(omap)     \* id_mapping of the fresh instance: default options
@@ -191,7 +211,7 @@ ISaveRestore ==
   /\ cmap' = RCmap /\ iinit' = RInit /\ mnt' = RMnt /\ sb' = RSb
   /\ restored' = TRUE /\ aok' = TRUE
   /\ ASaveRestore
-  /\ UNCHANGED <<smap, nexts, omap, ipn, inext, inempty, dirty>>
+  /\ UNCHANGED <<smap, nexts, omap, ipn, inext, inempty, refuse, dirty>>
   /\ Log([op |-> "saverestore"])
 
 Init ==
@@ -204,11 +224,14 @@ Init ==
   /\ sb = [i \in 0..N-1 |-> Vacant]
   /\ mnt = <<>> /\ smap = [i \in 0..N-1 |-> NoMap] /\ nexts = NextSuper0
   /\ ipn = EmptyTree /\ inext = NextIno0
-  /\ iinit = FALSE /\ inempty = TRUE
+  /\ iinit = FALSE /\ inempty = TRUE /\ refuse = [i \in 0..N-1 |-> FALSE]
   /\ aok = TRUE /\ dirty = [i \in 0..N-1 |-> FALSE] /\ restored = FALSE
   /\ hist = <<>> /\ nops = 0
 
-DoMount == nops < MaxOps /\ \E p \in Paths \cup {BadPath}, b \in Backends, m \in Maps \cup {NoMap} : IMount(p, b, m)
+DoMount == nops < MaxOps /\ \E p \in Paths \cup {BadPath}, b \in Backends, m \in Maps \cup {NoMap}, rf \in BOOLEAN :
+              \* (without RefuseBeforeInit: only once negotiated with a non-empty capability set, i.e. where a
+              \*  save/restore does not meet the restore-initialized finding)
+              (rf => (iinit /\ ~inempty) \/ RefuseBeforeInit) /\ IMount(p, b, m, rf)
 DoUmount == nops < MaxOps /\ \E p \in Paths : IUmount(p)
 DoInit == nops < MaxOps /\ \E e \in BOOLEAN : IInit(e)
 DoRemount == nops < MaxOps /\ \E p \in Paths, b \in Backends : IRemount(p, b)
